@@ -6,10 +6,12 @@ import (
 	"context"
 	"sort"
 
+	"github.com/drand/drand/v2/common/key"
 	"github.com/drand/drand/v2/common/log"
 	"github.com/drand/drand/v2/crypto"
 	"github.com/drand/drand/v2/internal/chain"
 	"github.com/drand/drand/v2/protobuf/drand"
+	"github.com/drand/kyber/sign"
 )
 
 // Accessors used by /verif harnesses (overlaid at build time, never committed to the repository).
@@ -52,3 +54,17 @@ func (v *VerifPartialCache) Rcvd() map[int][]string {
 func VerifRoundID(round uint64, prev []byte) string { return roundID(round, prev) }
 func VerifMaxPartialsPerNode() int                  { return MaxPartialsPerNode }
 func VerifCallbackWorkerQueue() int                 { return CallbackWorkerQueue }
+
+// VerifStopMonitor stops the native helper goroutine of the handler's threshold monitor.
+func VerifStopMonitor(h *Handler) { h.thresholdMonitor.Stop() }
+
+// VerifVaultGroup returns the live group of the handler's vault.
+func VerifVaultGroup(h *Handler) *key.Group { return h.crypto.GetGroup() }
+
+// VerifSyncManager builds the handler's sync manager pieces for direct driving.
+func VerifHandlerSyncManager(h *Handler) *SyncManager { return h.chain.syncm }
+
+// VerifSetSyncThresholdScheme replaces the threshold-signature implementation used by the handler's sync
+// manager (the harness passes a memoising decorator of the very same implementation; the scheme's digest
+// function and VerifyBeacon remain the repository's).
+func VerifSetSyncThresholdScheme(h *Handler, ts sign.ThresholdScheme) { h.chain.syncm.scheme.ThresholdScheme = ts }
